@@ -327,6 +327,10 @@ func tokenExprUnaryToProtoExprUnary(op datalog.UnaryOp) (*pb.OpUnary, error) {
 }
 
 func protoExprUnaryToTokenExprUnary(op *pb.OpUnary) (datalog.UnaryOpFunc, error) {
+	// required fields of messages nested in a oneof are not enforced by proto.Unmarshal
+	if op.Kind == nil {
+		return nil, errors.New("biscuit: missing proto OpUnary kind")
+	}
 	var unaryOp datalog.UnaryOpFunc
 	switch *op.Kind {
 	case pb.OpUnary_Negate:
@@ -385,6 +389,10 @@ func tokenExprBinaryToProtoExprBinary(op datalog.BinaryOp) (*pb.OpBinary, error)
 }
 
 func protoExprBinaryToTokenExprBinary(op *pb.OpBinary) (datalog.BinaryOpFunc, error) {
+	// required fields of messages nested in a oneof are not enforced by proto.Unmarshal
+	if op.Kind == nil {
+		return nil, errors.New("biscuit: missing proto OpBinary kind")
+	}
 	var binaryOp datalog.BinaryOpFunc
 	switch *op.Kind {
 	case pb.OpBinary_LessThan:
